@@ -133,7 +133,7 @@ func Run(r *ev.Run) {
 		limit = 200
 	}
 	r.Rule("G-type: every composition of depth<=3 of pointer/slice/array/map constructors over 19 basic and named types; every struct of <=2 fields (thorough: all pairs, 3 fields on a stride) over a 21-type field pool x 11-tag pool (reflect.StructOf); a declared catalogue (embedding by value/pointer, depth 2, shadowing in both orders, name collisions, tagged embedded structs, marshaler types, ...); " +
-		"x the value enumeration per type (zero/min/max/+-1 per integer kind, nil/non-nil pointers, nil/empty/1/2/5-element slices, maps with 0/1/2 entries, any in {nil,1.5,\"s\",[]any,map,true}; full product for small structs, otherwise single and pairwise deviations). Each value is marshalled by encoding/json and validated against ForType(T). Non-trivial = a (type, value) pair whose type is in the plain-data domain; pairs are distinct by construction")
+		"x the value enumeration per type (zero/min/max/+-1 per integer kind, nil/non-nil pointers, nil/empty/1/2/5-element slices, maps with 0/1/2 entries, any in {nil,1.5,\"s\",[]any,map,true}; full product for small structs, otherwise single and pairwise deviations). Each value is marshalled by encoding/json and validated against ForType(T); types with their own MarshalJSON (string / boolean / array encodings) are used in every position together with TypeSchemas entries in Type form, Types form and Types-with-null form. Non-trivial = a (type, value) pair whose type is in the plain-data domain; pairs are distinct by construction")
 	r.Assume("encoding/json is the oracle", "outside the domain: nil maps, []byte, ',string', pointer-receiver marshalers held by value in a map, nil embedded pointers, recursive and unsupported types (C16/C10)")
 	r.Set("types", len(ts))
 	inDom := 0
@@ -203,4 +203,79 @@ func Run(r *ev.Run) {
 		}
 	})
 	_ = inDom
+	userMarshalers(r, limit)
+}
+
+// userMarshalers: types with their own MarshalJSON are in the domain together with a TypeSchemas
+// entry; the encodings of values that hold them in every position must validate.
+func userMarshalers(r *ev.Run, limit int) {
+	cel, flag, stamp := reflect.TypeOf(gen.Celsius(0)), reflect.TypeOf(gen.Flag{}), reflect.TypeOf(gen.Stamp{})
+	optSets := []struct {
+		name string
+		ts   func() map[reflect.Type]*jsonschema.Schema
+	}{
+		{"Type form", func() map[reflect.Type]*jsonschema.Schema {
+			return map[reflect.Type]*jsonschema.Schema{cel: {Type: "string"}, flag: {Type: "boolean"}, stamp: {Type: "array", Items: &jsonschema.Schema{Type: "integer"}}}
+		}},
+		{"Types form", func() map[reflect.Type]*jsonschema.Schema {
+			return map[reflect.Type]*jsonschema.Schema{cel: {Types: []string{"string"}}, flag: {Types: []string{"boolean", "string"}}, stamp: {Types: []string{"array"}}}
+		}},
+		{"Types form with null", func() map[reflect.Type]*jsonschema.Schema {
+			return map[reflect.Type]*jsonschema.Schema{cel: {Types: []string{"null", "string"}}, flag: {Types: []string{"boolean", "null"}}, stamp: {Types: []string{"array", "null"}}}
+		}},
+	}
+	types := []reflect.Type{reflect.TypeOf(gen.UserTypes{}), reflect.TypeOf([]gen.UserTypes{}), reflect.TypeOf(map[string]*gen.UserTypes{}), cel, reflect.PointerTo(cel), reflect.TypeOf([]*gen.Flag{}), reflect.TypeOf(struct {
+		gen.UserTypes
+		X *gen.Stamp `json:"x"`
+	}{})}
+	for _, t := range types {
+		for _, o := range optSets {
+			key := "ForType(" + t.String() + ", TypeSchemas for user marshalers: " + o.name + ")"
+			if r.OnlyKey != "" && len(r.OnlyKey) >= len(key) && r.OnlyKey[:len(key)] != key {
+				continue
+			}
+			var s *jsonschema.Schema
+			var rs *jsonschema.Resolved
+			var err error
+			if p := par.Call(func() {
+				s, err = jsonschema.ForType(t, &jsonschema.ForOptions{TypeSchemas: o.ts()})
+				if err == nil {
+					rs, err = s.Resolve(nil)
+				}
+			}); p != "" {
+				r.Fail(key, map[string]any{"class": "panic", "panic": p})
+				continue
+			}
+			if err != nil {
+				r.Fail(key, map[string]any{"class": "For/Resolve error for a plain-data type", "error": err.Error()})
+				continue
+			}
+			n := 0
+			for _, v := range gen.Values(t, limit) {
+				if HasNilMap(v) {
+					continue
+				}
+				b, err := Encode(v)
+				if err != nil {
+					continue
+				}
+				var inst any
+				if json.Unmarshal(b, &inst) != nil {
+					continue
+				}
+				vkey := key + " ⊢ " + string(b)
+				if r.OnlyKey != "" && r.OnlyKey != vkey {
+					continue
+				}
+				n++
+				if ok, p := drive.Verdict(rs, inst); p != "" || !ok {
+					sb, _ := json.Marshal(s)
+					r.Fail(vkey, map[string]any{"class": "encoding rejected by inferred schema", "schema": string(sb), "error": fmt.Sprint(rs.Validate(inst)), "panic": p})
+				}
+			}
+			r.Eval(n)
+			r.NontrivialN(n)
+			r.Add("user_marshaler_values", int64(n))
+		}
+	}
 }
